@@ -5,6 +5,9 @@
 //!          mip sop   A _ O tab*                optimize_sop_mip(and = A, or = O)
 //!          mip sopes A X O tab*                optimize_sopes_mip
 //!          mip esop  A X _ tab*                optimize_esop_mip(and = A, xor = X)
+//!          mipilp <kind> A X O tab*            the integer programme the call hands to the solver
+//!                                              (hook verif_last_ilp), in a canonical text: variables
+//!                                              named by role, terms and constraints sorted
 //! impl prints  `ok <cost> <form> ...` ; the model prints `ok <optimum>` (or `ok ?` when it does not
 //! compute one); bin/check compares the cost field.
 
@@ -12,7 +15,7 @@ use crate::proto::*;
 use crate::rng::Rng;
 use std::io::{BufRead, Write};
 use std::panic::{catch_unwind, AssertUnwindSafe};
-use volute::sop::optim::{optimize_esop_mip, optimize_sop_mip, optimize_sopes_mip, verif_candidates};
+use volute::sop::optim::{optimize_esop_mip, optimize_sop_mip, optimize_sopes_mip, verif_candidates, verif_last_ilp, VerifIlp};
 use volute::sop::{Cube, Ecube};
 use volute::Lut;
 
@@ -70,7 +73,7 @@ struct Parsed {
 
 fn parse(line: &str) -> Option<Parsed> {
     let t: Vec<&str> = line.split_whitespace().collect();
-    if t.len() < 5 || t[0] != "mip" {
+    if t.len() < 5 || (t[0] != "mip" && t[0] != "mipilp") {
         return None;
     }
     let tabs: Option<Vec<Tab>> = t[5..].iter().map(|s| parse_tab(s)).collect();
@@ -116,6 +119,15 @@ fn impl_line(line: &str) -> String {
         Some(p) => p,
         None => return "bad-op".into(),
     };
+    if t[0] == "mipilp" {
+        return match run_opt(&p) {
+            Err(_) => "panic".to_string(),
+            Ok(_) => match verif_last_ilp() {
+                Some(d) => canon_ilp(&d),
+                None => "no-ilp".to_string(),
+            },
+        };
+    }
     match run_opt(&p) {
         Err(_) => "panic".to_string(),
         Ok((cs, es)) => {
@@ -134,6 +146,152 @@ fn impl_line(line: &str) -> String {
             format!("ok {} {}", cost, forms.join(" "))
         }
     }
+}
+
+
+// ------------------------------------------------------------------ the programme, canonically
+
+fn rat(f: f64) -> String {
+    let r = f * 2.0;
+    if r.fract() != 0.0 || !r.is_finite() {
+        return format!("{}", f);
+    }
+    let k = r as i64;
+    if k % 2 == 0 {
+        format!("{}", k / 2)
+    } else {
+        format!("{}/2", k)
+    }
+}
+
+/// "2 v3 + v5 + -1 v7" -> [(name, coeff)]
+fn parse_linear(s: &str) -> Vec<(String, f64)> {
+    let s = s.trim();
+    if s == "0" || s.is_empty() {
+        return vec![];
+    }
+    s.split(" + ")
+        .map(|t| {
+            let t = t.trim();
+            match t.split_once(' ') {
+                Some((c, v)) => (v.to_string(), c.parse::<f64>().unwrap_or(f64::NAN)),
+                None => (t.to_string(), 1.0),
+            }
+        })
+        .collect()
+}
+
+fn canon_ilp(d: &VerifIlp) -> String {
+    use std::collections::HashMap;
+    let mut role: HashMap<String, String> = HashMap::new();
+    let mut class: HashMap<String, char> = HashMap::new();
+    for (i, v) in d.used.iter().enumerate() {
+        role.insert(v.clone(), format!("U{}", i));
+        class.insert(v.clone(), 'U');
+    }
+    for (i, row) in d.used_in_fn.iter().enumerate() {
+        for (j, v) in row.iter().enumerate() {
+            role.insert(v.clone(), format!("X{}.{}", i, j));
+            class.insert(v.clone(), 'X');
+        }
+    }
+    for (j, v) in d.num_join.iter().enumerate() {
+        role.insert(v.clone(), format!("N{}", j));
+        class.insert(v.clone(), 'N');
+    }
+    // constraints
+    let parsed: Vec<(Vec<(String, f64)>, &str, f64)> = d
+        .constraints
+        .iter()
+        .map(|c| {
+            let (l, op, r) = if let Some((l, r)) = c.split_once(" <= ") {
+                (l, "<=", r)
+            } else if let Some((l, r)) = c.split_once(" = ") {
+                (l, "=", r)
+            } else {
+                (c.as_str(), "?", "nan")
+            };
+            (parse_linear(l), op, r.trim().parse::<f64>().unwrap_or(f64::NAN))
+        })
+        .collect();
+    // a variable without a role is a slack when it occurs in exactly one constraint
+    let mut occ: HashMap<String, usize> = HashMap::new();
+    for (terms, _, _) in &parsed {
+        for (v, _) in terms {
+            if !role.contains_key(v) {
+                *occ.entry(v.clone()).or_insert(0) += 1;
+            }
+        }
+    }
+    let obj_raw = {
+        // "linear" or "linear + const"
+        let t = parse_linear(&d.objective);
+        t
+    };
+    let name = |v: &String| -> String {
+        if let Some(r) = role.get(v) {
+            r.clone()
+        } else if occ.get(v) == Some(&1) && !obj_raw.iter().any(|(w, _)| w == v) {
+            "S".to_string()
+        } else {
+            v.clone()
+        }
+    };
+    let show_terms = |terms: &Vec<(String, f64)>| -> String {
+        let mut t: Vec<String> = terms.iter().filter(|(_, c)| *c != 0.0).map(|(v, c)| format!("{}*{}", rat(*c), name(v))).collect();
+        t.sort_by(|a, b| a.split_once('*').unwrap().1.cmp(b.split_once('*').unwrap().1).then(a.cmp(b)));
+        if t.is_empty() {
+            "0".to_string()
+        } else {
+            t.join("+")
+        }
+    };
+    let mut cons: Vec<String> = parsed.iter().map(|(t, op, r)| format!("{}{}{}", show_terms(t), op, rat(if *r == 0.0 { 0.0 } else { *r }))).collect();
+    cons.sort();
+    // domains by class
+    let mut dom: HashMap<char, Vec<String>> = HashMap::new();
+    for (v, is_int, mn, mx) in &d.variables {
+        let cl = match class.get(v) {
+            Some(c) => *c,
+            None => {
+                if name(v) == "S" {
+                    'S'
+                } else {
+                    '?'
+                }
+            }
+        };
+        let desc = if *is_int && *mn == 0.0 && *mx == 1.0 {
+            "b".to_string()
+        } else if !*is_int && *mn == 0.0 && *mx == f64::INFINITY {
+            "c".to_string()
+        } else if *is_int && *mn == f64::NEG_INFINITY && *mx == f64::INFINITY {
+            "i".to_string()
+        } else {
+            format!("?{}:{}:{}", is_int, mn, mx)
+        };
+        let e = dom.entry(cl).or_default();
+        if !e.contains(&desc) {
+            e.push(desc);
+        }
+    }
+    let mut doms: Vec<String> = Vec::new();
+    for cl in ['U', 'X', 'N', 'S', '?'] {
+        if let Some(v) = dom.get_mut(&cl) {
+            v.sort();
+            doms.push(format!("{}:{}", cl, v.join("/")));
+        }
+    }
+    format!(
+        "ok kind={} F={} cubes={} ecubes={} dom={} obj={} cons={}",
+        d.kind,
+        d.num_functions,
+        show_cubes(&d.cubes),
+        show_ecubes(&d.ecubes),
+        doms.join(","),
+        show_terms(&obj_raw),
+        if cons.is_empty() { "-".to_string() } else { cons.join("|") }
+    )
 }
 
 // ------------------------------------------------------------------ independent optimum
@@ -598,6 +756,41 @@ fn gen(thorough: bool, seed: u64) -> Vec<String> {
         let (a, x, o) = unequal[i % 4];
         let kind = if i % 9 == 4 { "sopes" } else { "sop" };
         out.push(format!("mip {} {} {} {} {}", kind, a, x, o, tabs.join(" ")));
+    }
+    // the integer programme itself (hook verif_last_ilp) against the model's, constraint by
+    // constraint: every function of n <= 2, lists of one to three functions of n <= 4
+    for n in 0..=2usize {
+        for f in tabs_n(n) {
+            for k in kinds {
+                out.push(format!("mipilp {} 1 2 3 {}", k, f.show()));
+            }
+        }
+    }
+    for i in 0..(if thorough { 400 } else { 90 }) {
+        let n = match i % 6 {
+            0 | 1 => 2,
+            5 => 4,
+            _ => 3,
+        };
+        if n == 4 && i % 12 != 5 {
+            continue;
+        }
+        let k = 1 + (i / 6) % 3;
+        let tabs: Vec<String> = (0..k)
+            .map(|_| {
+                let mut t = crate::gen::gen_tab(&mut r, n);
+                if r.below(3) == 0 {
+                    t.w[0] &= r.next();
+                }
+                t.show()
+            })
+            .collect();
+        let (a, x, o) = *r.pick(&triples);
+        let kind = kinds[i % 3];
+        if kind == "esop" && n == 4 && k > 1 {
+            continue;
+        }
+        out.push(format!("mipilp {} {} {} {} {}", kind, a, x, o, tabs.join(" ")));
     }
     // random lists up to n = 4 with 1..3 outputs: exactness only
     for _ in 0..(if thorough { 60 } else { 8 }) {
